@@ -529,12 +529,18 @@ def model_cases(tier):
       if rname in MODEL_RECIPES or rname.startswith('only:') or \
           rname.startswith('optype:'):
         cs.append((skel, rname))
+  # seeded random DAGs under the two full-integer shipped recipes
+  dags = list(P.skeleton_family('thorough_dags'))
+  for skel in dags[:30 if tier == 'quick' else 300]:
+    for rname in MODEL_RECIPES[:2]:
+      cs.append((skel, rname))
   return cs
 
 
 def job_model(job):
   tier = job.args['tier']
-  fam = P.skeleton_family(tier)
+  fam = dict(P.skeleton_family(tier))
+  fam.update(P.skeleton_family('thorough_dags'))
   st = Stats()
   cands, inconc, samples = [], [], []
   for skel, rname in job.args['cases']:
